@@ -172,6 +172,47 @@ func (c c05Case) runFile(viol func(sig, detail string), r *core.Run) {
 			viol("over-fetch "+mode+" "+c.File.Writer, fmt.Sprintf("%s [%d,%d): requested %s; not intersecting the range: %s", c, a, b, shortList(s.Reads()), shortList(x)))
 		}
 	}
+	// a Seek is not a request for data: positioning at x and then, without
+	// reading, at a (any whence) fetches only what the read of [a,b) needs, and
+	// a reader that is only positioned fetches nothing
+	if L >= 2 && L <= 40 {
+		for x := int64(0); x < L; x++ {
+			rs, _ := lb.AsLargeBytes()
+			s.ResetLogs()
+			if _, err := rs.Seek(x, io.SeekStart); err != nil {
+				continue
+			}
+			if len(s.Reads()) != 0 {
+				viol("seek-fetches", fmt.Sprintf("%s: Seek(%d,Start) alone requested %s", c, x, shortList(s.Reads())))
+				break
+			}
+			for _, a := range []int64{0, (x + L/2) % L, L - 1} {
+				rs, _ := lb.AsLargeBytes()
+				s.ResetLogs()
+				rs.Seek(x, io.SeekStart)
+				var err error
+				if a%2 == 0 {
+					_, err = rs.Seek(a, io.SeekStart)
+				} else {
+					_, err = rs.Seek(a-x, io.SeekCurrent)
+				}
+				buf := make([]byte, 1)
+				if err == nil {
+					_, err = io.ReadFull(rs, buf)
+				}
+				if r != nil {
+					r.Transitions.Add(1)
+				}
+				if err != nil || buf[0] != content[a] {
+					viol("range-bytes double-seek", fmt.Sprintf("%s: Seek(%d), Seek to %d, Read(1): err=%v got %x want %x", c, x, a, err, buf, content[a:a+1]))
+					continue
+				}
+				if xr := extraReads(s.Reads(), tree.Needed(a, a+1)); len(xr) > 0 {
+					viol("over-fetch double-seek "+c.File.Writer, fmt.Sprintf("%s: Seek(%d), Seek to %d, Read(1): requested %s; byte %d needs none of %s", c, x, a, shortList(s.Reads()), a, shortList(xr)))
+				}
+			}
+		}
+	}
 	// two requests on ONE reader: read [a,b), then seek to c and read [c,d).
 	// What the second request fetches must again be only what [c,d) needs
 	// (a reader that walks or discards the gap would fetch the blocks between).
